@@ -661,7 +661,7 @@ class ShiftInterp:
             if a0.kind == "shift":
                 return self._conflict(f"log of a shifted value {a0!r}", e)
             return a0
-        if name in ("numpy.minimum", "numpy.maximum", "numpy.clip", "numpy.abs", "numpy.sqrt", "numpy.where"):
+        if name in ("numpy.minimum", "numpy.maximum", "numpy.fmax", "numpy.fmin", "numpy.clip", "numpy.abs", "numpy.sqrt", "numpy.where"):
             ts = [t for t in args if t.kind in ("shift", "scale")]
             if all(t.is_inv for t in ts) and len(ts) == len(args):
                 axes = None
